@@ -702,7 +702,7 @@ class RandomVariables(CollectionsSequence, Immutable):
         cov_to_params = {}
         if fill != 0:
             for row, col in product(range(M.rows), range(M.cols)):
-                if M[row, col] == 0:
+                if M[row, col] == 0 and row != col:
                     M[row, col] = fill
         elif name_template:
             for row, col in product(range(M.rows), range(M.cols)):
